@@ -9,11 +9,11 @@ from contracts import fitworld as FW
 
 LEVEL = "proof"
 MANIFEST = {
-    "engine": "qv-astvc+qv-native",
+    "engine": "qv-astvc+qv-native+qv-gen",
     "category": "proof",
     "technique": "contracts on compute_batch_gradients (base and PositiveWaveFunction override; real body on symbolic tensors with opaque callee stubs), vector_to_grads (real body on the real parameter lists, symbolic vector) and the batch loop of fit (sandbox recompilation, Hoare cut points, ghost optimizer / scheduler log); obligations by normal form and z3",
-    "text": "compute_batch_gradients is executed with positive_phase_gradients, gibbs_steps and effective_energy_gradient replaced by opaque contract values: gibbs_steps is called once with (k, negative batch) on the amplitude network, the amplitude gradient is P0 - G(v_k)/|negative batch| and the phase gradient is the positive phase only. vector_to_grads is executed on the real parameter lists of every architecture with a vector of distinct symbols: parameter p receives exactly vec[off(p):off(p)+numel(p)] reshaped, with off from the real parameters() order. In fit (symbolic epochs, N, batch sizes, k) every batch performs exactly: gradients of this batch, zero_grad, one gradient write per network in order, one step — between that batch's batch_start and batch_end; the optimizer is built once over all parameters with the requested lr; the scheduler is advanced exactly once per epoch after the batch loop and before epoch_end.",
-    "note": "torch.optim.SGD.step (p <- p - lr * p.grad) and lr_scheduler.step are trusted library contracts (bounded driver compares a real training step with the formula); gibbs_steps / positive phase / energy gradient have their own contracts (C05, C03)",
+    "text": "compute_batch_gradients is executed with positive_phase_gradients, gibbs_steps and effective_energy_gradient replaced by opaque contract values: gibbs_steps is called once with (k, negative batch) on the amplitude network, the amplitude gradient is P0 - G(v_k)/|negative batch| and the phase gradient is the positive phase only. vector_to_grads is executed on the real parameter lists of every architecture with a vector of distinct symbols: parameter p receives exactly vec[off(p):off(p)+numel(p)] reshaped, with off from the real parameters() order. In fit (symbolic epochs, N, batch sizes, k) every batch performs exactly: gradients of this batch, zero_grad, one gradient write per network in order, one step — between that batch's batch_start and batch_end; the optimizer is built once over all parameters with the requested lr; the scheduler is advanced exactly once per epoch after the batch loop and before epoch_end. Additionally (front end G) compute_batch_gradients without bases is executed on tensors of symbolic shape for all three kinds of state with gibbs_steps replaced by its contract: data-batch mean minus negative-batch mean of the energy gradients, piece by piece, for every size.",
+    "note": "torch.optim.SGD.step (p <- p - lr * p.grad) and lr_scheduler.step are trusted library contracts (bounded driver compares a real training step with the formula); gibbs_steps / positive phase / energy gradient have their own contracts (C05, C03); the shape-generic part (front end G) holds for all sizes and values, equalities decided by tensor-algebra normal form (sound, incomplete: a miss is undecided, never a violation without a replayed witness)",
 }
 EXPLANATION = "opaque UF stubs isolate compute_batch_gradients' own arithmetic; ghost optimizer log with batch tokens for the loop"
 TRUSTED = ["torch.optim.SGD.step: p <- p - lr * p.grad for every parameter with a gradient", "lr_scheduler.step advances the schedule by one epoch"]
